@@ -44,9 +44,7 @@ Definition remaining : list string :=
     "inlines.rs:handle_close_bracket:input[starttitle..]";
     "inlines.rs:handle_close_bracket:input[endtitle..]";
     "inlines.rs:handle_close_bracket:title";
-    "strings.rs:clean_title:title[1..title_len - 1]";
-    "inlines.rs:adjust_node_newlines:slice";
-    "inlines.rs:parse_inline:endpos-1" ].
+    "strings.rs:clean_title:title[1..title_len - 1]" ].
 
 Definition allowed (site : string) : bool := existsb (String.eqb site) remaining.
 
@@ -502,14 +500,15 @@ Proof.
 Qed.
 
 Lemma adjust_sites s n ml ex site :
-  ml + ex <= pos s -> sl (nsp n) = line s ->
+  ml + ex <= pos s -> pos s - ex <= List.length inp -> sl (nsp n) = line s ->
   count_lf (firstn (pos s - ex - (pos s - (ml + ex))) (skipn (pos s - (ml + ex)) inp)) < List.length lo ->
   adjust_node_newlines inp lo s n ml ex = Panic site -> allowed site = true.
 Proof.
-  intros Hml Hsl Hlo H. unfold adjust_node_newlines, usub, nsub, slice in H.
+  intros Hml Hb Hsl Hlo H. unfold adjust_node_newlines, usub, nsub, slice in H.
   destruct (Nat.ltb (pos s) (ml + ex)) eqn:E1; [apply Nat.ltb_lt in E1; lia|]. cbn [bind] in H.
   destruct (Nat.ltb (pos s) ex) eqn:E2; [apply Nat.ltb_lt in E2; lia|]. cbn [bind] in H.
-  match type of H with bind (if ?b then _ else _) _ = _ => destruct b; cbn [bind] in H end; [inversion H; reflexivity|].
+  match type of H with bind (if ?b then _ else _) _ = _ => destruct b eqn:E0; cbn [bind] in H end.
+  { exfalso. apply orb_true_iff in E0. unfold len in E0. destruct E0 as [E0|E0]; apply Nat.ltb_lt in E0; lia. }
   pose proof (count_newlines_spec (firstn (pos s - ex - (pos s - (ml + ex))) (skipn (pos s - (ml + ex)) inp)) 0 0) as (A & _ & _).
   destruct (count_newlines _ 0 0) as [newlines since]. cbn [fst] in A.
   destruct newlines as [|k]; [discriminate|].
@@ -585,7 +584,8 @@ Proof.
     simp_st. destruct Es as [B1 B2].
     unfold usub, slice in H. invp; simp_st; try site_or_absurd.
     all: try (rewrite ?F2, ?F3 in *; site_or_absurd).
-    match goal with Ha : adjust_node_newlines _ _ _ _ _ _ = Panic _ |- _ => eapply adjust_sites in Ha; [exact Ha| | |] end.
+    match goal with Ha : adjust_node_newlines _ _ _ _ _ _ = Panic _ |- _ => eapply adjust_sites in Ha; [exact Ha| | | |] end.
+    + simp_st. lia.
     + simp_st. lia.
     + match goal with Em : mk _ _ _ _ = Ok ?n |- _ => apply mk_shape in Em; destruct Em as (c1 & c2 & ->) end. reflexivity.
     + simp_st.
@@ -751,7 +751,8 @@ Proof.
   destruct cm eqn:Ecm.
   - destruct Hcm as [Hod|Hx]; [|discriminate Hx].
     invp; simp_st; try site_or_absurd.
-    match goal with Ha : adjust_node_newlines _ _ _ _ _ _ = Panic _ |- _ => eapply adjust_sites in Ha; [exact Ha| | |] end.
+    match goal with Ha : adjust_node_newlines _ _ _ _ _ _ = Panic _ |- _ => eapply adjust_sites in Ha; [exact Ha| | | |] end.
+    + simp_st. lia.
     + simp_st. lia.
     + match goal with Em : mk _ _ _ _ = Ok ?n |- _ => apply mk_shape in Em; destruct Em as (c1 & c2 & ->) end. reflexivity.
     + simp_st.
@@ -759,7 +760,7 @@ Proof.
       replace (ep - (ep - pos s - 2 + 2)) with (pos s) by lia.
       pose proof (lf_in_range (pos s) (ep - 2) ltac:(lia) ltac:(lia)). lia.
   - invp; simp_st; try site_or_absurd.
-    all: match goal with Ha : adjust_node_newlines _ _ _ _ _ _ = Panic _ |- _ => eapply adjust_sites in Ha; [exact Ha| | |] end.
+    all: match goal with Ha : adjust_node_newlines _ _ _ _ _ _ = Panic _ |- _ => eapply adjust_sites in Ha; [exact Ha| | | |] end.
     all: try (simp_st; lia).
     all: try (match goal with Em : mk _ _ _ _ = Ok ?n |- _ => apply mk_shape in Em; destruct Em as (c1 & c2 & ->) end; reflexivity).
     all: simp_st.
@@ -817,7 +818,8 @@ Proof.
   match type of H with (let '(_, _) := ?x in _) = _ => destruct x as [ml [[[fc fd] fp] fm]] end.
   destruct ml as [m|].
   - invp; simp_st; try site_or_absurd.
-    match goal with Ha : adjust_node_newlines _ _ _ _ _ _ = Panic _ |- _ => eapply adjust_sites in Ha; [exact Ha| | |] end.
+    match goal with Ha : adjust_node_newlines _ _ _ _ _ _ = Panic _ |- _ => eapply adjust_sites in Ha; [exact Ha| | | |] end.
+    + simp_st. lia.
     + simp_st. lia.
     + match goal with Em : mk _ _ _ _ = Ok ?n |- _ => apply mk_shape in Em; destruct Em as (c1 & c2 & ->) end. reflexivity.
     + simp_st. bools. unfold len in *.
